@@ -39,6 +39,24 @@ Fixpoint names (m : model) : list string :=
 (* self.param_names (with prefix) *)
 Definition pnames (m : model) : list string := map (append (prefix_of m)) (names m).
 
+(* a chain of re-prefixings m.with_prefix(p1).with_prefix(p2)... *)
+Definition with_prefixes (ps : list string) (m : model) : model :=
+  fold_left (fun m' p => with_prefix p m') ps m.
+
+(* keys of _param_bounds() (without the model's own prefix) and of param_bounds *)
+Definition bound_base (k : kind) : list string :=
+  match k with
+  | KGauss | KLorentz => ["scale"]
+  | KPVoigt => ["scale"; "fraction"]
+  | KPoly _ => []
+  end.
+Fixpoint bnames (m : model) : list string :=
+  match m with
+  | Leaf k _ => bound_base k
+  | Comp _ l r => map (append (prefix_of l)) (bnames l) ++ map (append (prefix_of r)) (bnames r)
+  end.
+Definition pbnames (m : model) : list string := map (append (prefix_of m)) (bnames m).
+
 Definition mem (s : string) (l : list string) : bool := existsb (String.eqb s) l.
 Definition subset (a b : list string) : bool := forallb (fun s => mem s b) a.
 Definition set_eqb (a b : list string) : bool := subset a b && subset b a.
